@@ -601,6 +601,103 @@ pub async fn pair_fifo(kind: &str, seed: u64) -> Vec<(String, String)> {
     problems
 }
 
+/// one direction over a real pair, the writer using vectored writes whose slices are sized around the pipe capacity
+pub async fn pair_vectored(kind: &str, seed: u64) -> Vec<(String, String)> {
+    use tokio::io::{AsyncReadExt, AsyncWriteExt};
+    let mut rng = StdRng::seed_from_u64(seed ^ 0x7ec);
+    let mut problems = Vec::new();
+    let cap = [1usize, 4, 16, 64, 1024][rng.gen_range(0..5)];
+    let (mut a, mut b): (hyperdriver::stream::Braid, hyperdriver::stream::Braid) = match kind {
+        "duplex" => {
+            let (x, y) = hyperdriver::stream::duplex::DuplexStream::new(cap);
+            (x.into(), y.into())
+        }
+        "tcp" => {
+            let l = tokio::net::TcpListener::bind("127.0.0.1:0").await.unwrap();
+            let addr = l.local_addr().unwrap();
+            let (c, s) = tokio::join!(hyperdriver::stream::TcpStream::connect(addr), l.accept());
+            let (s, remote) = s.unwrap();
+            (c.unwrap().into(), hyperdriver::stream::TcpStream::server(s, remote).into())
+        }
+        _ => {
+            let (x, y) = hyperdriver::stream::UnixStream::pair().unwrap();
+            (x.into(), y.into())
+        }
+    };
+    let total = rng.gen_range(1..6_000usize);
+    let data: Vec<u8> = (0..total).map(|i| (i as u8).wrapping_mul(29).wrapping_add(3)).collect();
+    let d2 = data.clone();
+    let sizes: Vec<usize> = (0..48).map(|_| [0usize, 1, 2, cap, cap, cap.saturating_sub(1).max(1), cap + 1, 100][rng.gen_range(0..8)]).collect();
+    let writer = async move {
+        let mut i = 0;
+        let mut k = 0;
+        let mut calls = 0u32;
+        while i < d2.len() {
+            // 2-4 slices per call
+            let ns = 2 + k % 3;
+            let mut bounds = vec![i];
+            for j in 0..ns {
+                let last = *bounds.last().unwrap();
+                bounds.push((last + sizes[(k + j) % sizes.len()]).min(d2.len()));
+            }
+            let slices: Vec<std::io::IoSlice<'_>> = bounds.windows(2).map(|w| std::io::IoSlice::new(&d2[w[0]..w[1]])).collect();
+            let offered = bounds[ns] - i;
+            let n = a.write_vectored(&slices).await.map_err(|e| format!("write_vectored: {e}"))?;
+            if n > offered {
+                return Err(format!("write_vectored returned {n} for {offered} offered bytes"));
+            }
+            if n == 0 && offered > 0 {
+                return Err("write_vectored returned 0 for a non-empty request".to_string());
+            }
+            i += n;
+            k += 1;
+            calls += 1;
+            if calls > 200_000 {
+                return Err("writer makes no progress".to_string());
+            }
+        }
+        a.flush().await.map_err(|e| format!("flush: {e}"))?;
+        a.shutdown().await.map_err(|e| format!("shutdown: {e}"))?;
+        Ok::<_, String>(())
+    };
+    let reader = async move {
+        let mut got = Vec::new();
+        let mut buf = vec![0u8; 512];
+        let mut k = 0usize;
+        loop {
+            let c = [1usize, 5, 64, 512][k % 4];
+            let n = b.read(&mut buf[..c]).await.map_err(|e| format!("read: {e}"))?;
+            if n == 0 {
+                break;
+            }
+            got.extend_from_slice(&buf[..n]);
+            k += 1;
+            if got.len() > 100_000 {
+                return Err(format!("reader received {} bytes, far more than were written", got.len()));
+            }
+        }
+        Ok::<_, String>(got)
+    };
+    match tokio::time::timeout(std::time::Duration::from_secs(60), async { tokio::join!(writer, reader) }).await {
+        Err(_) => problems.push((format!("pair-vectored:{kind}:stalled"), format!("{kind} pair (capacity {cap}) seed {seed}: vectored transfer did not finish"))),
+        Ok((w, r)) => {
+            if let Err(e) = w {
+                problems.push((format!("pair-vectored:{kind}:writer"), format!("{kind} pair (capacity {cap}) seed {seed}: {e}")));
+            }
+            match r {
+                Err(e) => problems.push((format!("pair-vectored:{kind}:reader"), format!("{kind} pair (capacity {cap}) seed {seed}: {e}"))),
+                Ok(got) => {
+                    if got != data {
+                        let at = got.iter().zip(&data).position(|(x, y)| x != y).unwrap_or(got.len().min(data.len()));
+                        problems.push((format!("pair-vectored:{kind}:bytes-differ"), format!("{kind} pair (capacity {cap}) seed {seed}: received {} bytes, sent {}, first difference at offset {at}", got.len(), data.len())));
+                    }
+                }
+            }
+        }
+    }
+    problems
+}
+
 pub fn run(args: &Args) -> Report {
     let miri = args.extra.contains_key("miri") || cfg!(miri);
     let light = args.extra.contains_key("light");
@@ -649,10 +746,14 @@ pub fn run(args: &Args) -> Report {
         let part = crate::report::parallel(args.threads.min(8), n_pairs, "iolab", |i, r| {
             let kind = kinds[(i % 3) as usize];
             let rt = tokio::runtime::Builder::new_current_thread().enable_all().build().unwrap();
-            let problems = rt.block_on(pair_fifo(kind, args.seed.wrapping_add(i)));
+            let mut problems = rt.block_on(pair_fifo(kind, args.seed.wrapping_add(i)));
+            for j in 0..4u64 {
+                problems.extend(rt.block_on(pair_vectored(kind, args.seed.wrapping_add(i * 4 + j))));
+            }
             let p = r.prop("C18", RULE);
             p.eval(Some(hash_of(&("pair", kind, i))));
             p.count(&format!("pairs_{kind}"), 1);
+            p.count(&format!("pairs_vectored_{kind}"), 4);
             for (s, m) in problems {
                 p.violation(s, m, json!({"engine": "iolab", "pair": kind, "seed": args.seed.wrapping_add(i)}));
             }
